@@ -88,12 +88,14 @@ fn dispatch_all(m: &mut Mon, bits: usize, op: &str, a: &[Arg]) {
     }
 }
 
+const NCLASS: usize = 18;
+
 /// Odd modulus >= 3 below 2^bits with a chosen top limb class.
 fn modulus(r: &mut Rng, bits: usize, class: usize) -> Vec<u64> {
     let l = gen::nlimbs(bits);
     let mask = gen::mask(bits);
     let mut v: Vec<u64> = (0..l).map(|_| gen::alpha_limb(r)).collect();
-    let top = match class % 14 {
+    let top = match class % NCLASS {
         0 => 0, // short modulus
         1 => 1,
         2 => (1u64 << 62) - 2,
@@ -107,10 +109,15 @@ fn modulus(r: &mut Rng, bits: usize, class: usize) -> Vec<u64> {
         10 => (1u64 << 62) + 1,
         11 => (1u64 << 63) + 1,
         12 => r.u64(),
+        // around 2^64 / 3, where three maximal carries first exceed one limb
+        13 => 0x5555_5555_5555_5554,
+        14 => 0x5555_5555_5555_5555,
+        15 => 0x5555_5555_5555_5556,
+        16 => 0x5555_5555_5555_5555 + (r.u64() >> 40),
         _ => gen::alpha_limb(r),
     };
     v[l - 1] = top & mask;
-    if class % 14 == 0 && l >= 2 && r.bool() {
+    if class % NCLASS == 0 && l >= 2 && r.bool() {
         // several zero limbs on top
         let z = r.range(1, l - 1);
         for x in v.iter_mut().rev().take(z) {
@@ -156,7 +163,7 @@ fn workload(m: &mut Mon) {
         let bits = 64 * n;
         let mut r = m.stream("c11.slice", n);
         let reps = m.iters(if n <= 8 { 160 } else { 60 });
-        for class in 0..14 {
+        for class in 0..NCLASS {
             for _ in 0..reps {
                 if !m.keep() {
                     continue;
@@ -175,7 +182,7 @@ fn workload(m: &mut Mon) {
         }
     }
     if !m.is_light() {
-        m.mark_exhaustive("every N in 1..=16 x 14 top-limb classes of the modulus (0, 1, 2^62-2..2^62+1, 2^63-2..2^63+1, MAX-1, MAX, random, alphabet); operand contents sampled");
+        m.mark_exhaustive("every N in 1..=16 x 18 top-limb classes of the modulus (0, 1, 2^62-2..2^62+1, 2^64/3-1..2^64/3+1, 2^63-2..2^63+1, MAX-1, MAX, random, alphabet); operand contents sampled");
     }
     // Uint level, aligned and non-aligned widths
     for &bits in WIDTHS {
@@ -184,7 +191,7 @@ fn workload(m: &mut Mon) {
         }
         let mut r = m.stream("c11.uint", bits);
         let reps = m.iters(if bits <= 512 { 100 } else { 40 });
-        for class in 0..14 {
+        for class in 0..NCLASS {
             for _ in 0..reps {
                 if !m.keep() {
                     continue;
